@@ -287,8 +287,80 @@ def real_stream(tier, seed):
                 distribution=hist)
 
 
+def _public_solve(spec, heuristic, explicit=None):
+    """one run of the PUBLIC PEP.solve(wrapper=<scripted>, dimension_reduction_heuristic=heuristic, **explicit) on the
+    model of `spec`; returns what reached the wrapper: [(wc, tol) of prepare_heuristic], [weights of heuristic]"""
+    from . import recording
+    pep, P, X = L.build_pep(spec)
+    Wcls = L.make_wrapper_class()
+
+    def script(w, k):
+        duals = L.synthetic_duals(w.prob, spec["dual_seed"], k)
+        for c, v in zip(w.prob.constraints, duals):
+            c.save_dual_value(v)
+        pts = L.full_pts(spec, w.G.shape[0])
+        w.optimal_G = (1.0 if k == 0 else 0.5) * (pts.T @ pts)
+        w.optimal_F = L.full_fvals(spec, w.F.shape[0]) + 0.25 * k
+        return dict(wc_value=w.optimal_F[pep.objective.counter], duals=duals, constraints=w.prob.constraints,
+                    objective=w.prob.objective, prob=w.prob)
+
+    last = recording.install(lambda verbose=0: Wcls(script, verbose=verbose))
+    kw = dict(explicit or {})
+    L.quiet(pep.solve, wrapper=recording.NAME, verbose=0, dimension_reduction_heuristic=heuristic, **kw)
+    w = last()
+    return [(float(a), float(b)) for a, b in w.prepare_args], [x.tolist() for x in w.weights]
+
+
+def defaults_stream(tier, seed):
+    """`option-defaults`: the tolerance and the eigenvalue regularisation that reach the wrapper when the caller does NOT
+    pass them are the documented defaults of PEP.solve -- in a fresh process state and after earlier solves (of the
+    same or of another model) that passed explicit, different values (seed C14-9: defaults kept in a shared dict that
+    explicit values overwrite)."""
+    import inspect
+    from PEPit import PEP
+    rng = random.Random(seed * 7121 + 1414)
+    n = 10 if tier == "quick" else 80
+    problems, samples, hist = [], [], {}
+    sig = inspect.signature(PEP.solve).parameters
+    doc_tol = sig["tol_dimension_reduction"].default if "tol_dimension_reduction" in sig else None
+    evaluations = 0
+    for _ in range(n):
+        spec = L.gen_spec(rng, max_scalars=6, max_lmis=1)
+        other = L.gen_spec(rng, max_scalars=4, max_lmis=1)
+        h = rng.choice(["trace", "logdet1", "logdet2"])
+        tol_x, eig_x = rng.choice([0.25, 0.5, 2.0 ** -20]), rng.choice([0.5, 2.0, 2.0 ** -12])
+        key = dict(spec=spec, heuristic=h, explicit=dict(tol_dimension_reduction=tol_x, eig_regularization=eig_x))
+        try:
+            fresh = _public_solve(spec, h)
+            _public_solve(rng.choice([spec, other]), rng.choice(["trace", "logdet1"]), explicit=key["explicit"])
+            after = _public_solve(spec, h)
+            given = _public_solve(spec, h, explicit=key["explicit"])
+        except Exception as e:
+            problems.append(dict(kind="implementation-raised", error=repr(e)[:300], **key))
+            continue
+        evaluations += 4
+        hist[h] = hist.get(h, 0) + 1
+        if fresh != after:
+            problems.append(dict(kind="defaults-depend-on-an-earlier-call", fresh=fresh[0], after=after[0], **key))
+        if isinstance(doc_tol, float) and fresh[0] and fresh[0][0][1] != doc_tol:
+            problems.append(dict(kind="default-tolerance-is-not-the-documented-one", documented=doc_tol, got=fresh[0], **key))
+        if given[0] and given[0][0][1] != tol_x:
+            problems.append(dict(kind="explicit-tolerance-not-forwarded", got=given[0], **key))
+        if h != "trace" and given[1] == fresh[1] and eig_x != 1e-3:
+            problems.append(dict(kind="explicit-eig-regularization-ignored", **key))
+        if len(samples) < 2:
+            samples.append(dict(heuristic=h, prepare_heuristic_args_fresh=fresh[0], after_explicit_call=after[0],
+                                with_explicit_values=given[0]))
+    return dict(name="option-defaults", evaluations=evaluations, distinct_nontrivial=evaluations // 4,
+                rule="one case = the public PEP.solve with a scripted wrapper, four runs: defaults in a fresh state, an "
+                     "unrelated solve with explicit tolerance / regularisation, defaults again, explicit values; what reaches "
+                     "prepare_heuristic / heuristic must not depend on the earlier call; distinct = cases",
+                samples=samples, n_mismatch=0, mismatches=[], problems=problems[:5], n_problems=len(problems),
+                distribution=dict(heuristics=hist))
+
+
 def correspondence(tier, seed, corpus=()):
-    return [scripted_stream(tier, seed, corpus), real_stream(tier, seed)]
+    return [scripted_stream(tier, seed, corpus), defaults_stream(tier, seed), real_stream(tier, seed)]
 
 
 def search(tier, seed):
